@@ -271,8 +271,18 @@ pub fn one_case<R: Src>(r: &mut R, id: &str) -> Option<(IllCase, (String, String
             }
          },
          "unknown_program_attribute" => {
-            new_items.insert(0, "#![frobnicate]".into());
-            site = "program".into();
+            // a plain unknown name, a misspelt known one, and unknown multi-segment paths (with and without arguments)
+            let forms = [
+               ("plain", "#![frobnicate]"),
+               ("misspelt", "#![measure_rule_time]"),
+               ("path", "#![my_tool::frobnicate]"),
+               ("known_name_with_path", "#![ascent::measure_rule_times]"),
+               ("path_with_args", "#![my_tool::frobnicate(level = 3)]"),
+               ("plain_with_args", "#![frobnicate(level = 3)]"),
+            ];
+            let (kind, text) = forms[r.below(forms.len())];
+            new_items.insert(0, text.into());
+            site = format!("program:{kind}");
             true
          },
          "inter_rule_parallelism_on_serial" => {
@@ -283,8 +293,10 @@ pub fn one_case<R: Src>(r: &mut R, id: &str) -> Option<(IllCase, (String, String
          },
          "unknown_relation_attribute" => {
             let di = r.below(n_decl);
-            new_items[di] = format!("#[frobnicate] {}", items[di]);
-            site = "declaration".into();
+            let forms = [("plain", "#[frobnicate]"), ("path", "#[my_tool::frobnicate]"), ("with_args", "#[frobnicate(level = 3)]")];
+            let (kind, text) = forms[r.below(forms.len())];
+            new_items[di] = format!("{text} {}", items[di]);
+            site = format!("declaration:{kind}");
             expect = "accept";
             true
          },
